@@ -209,6 +209,32 @@ def run_case(case):
                 bad("get_params omits a constructor argument", "fresh object", "%s=%r variant %s reports %r" % (k, v, case["variant"], sorted(fl)))
             elif fl[k] != K.canon(v):
                 bad("get_params reports another value than the constructor was given", "fresh object", "%s=%r reported %r" % (k, v, fl[k]))
+    # ---------- independence of instances: two objects built by two separate constructor calls share no nested estimator the
+    # library made for them (aliases such as binner='bins', default estimators), and setting any key of the one leaves the other,
+    # and objects constructed afterwards, as they were
+    try:
+        a, b = build(()), build(())
+        pb0 = K.flat_params(b)
+        common = set(K.nested_ids(a)) & set(K.nested_ids(b))
+        if common:
+            bad("two separately constructed objects share a nested estimator instance", "fresh objects",
+                "%r variant %s" % ([K.nested_ids(a)[i] for i in common], case["variant"]))
+        for (k, ccat) in _curated(a, strs, 8, C["skip"], every=True):
+            try:
+                ok, nv = _fresh_value(k, a.get_params(deep=True)[k], strs, a, C["skip"])
+                a.set_params(**{k: nv})
+            except Exception:
+                continue            # reported by the state exploration below
+            transitions_indep = 1
+            if K.flat_params(b) != pb0:
+                bad("set_params on one object changes another object", ccat, "key %s: %r variant %s" % (k, _diff(pb0, K.flat_params(b))[:4], case["variant"]))
+                break
+            later = K.flat_params(build(()))
+            if later != pb0:
+                bad("set_params on one object changes objects constructed afterwards", ccat, "key %s: %r variant %s" % (k, _diff(pb0, later)[:4], case["variant"]))
+                break
+    except Exception as e:
+        bad("independence section raises %s" % type(e).__name__, "fresh objects", "%s variant %s" % (str(e)[:200], case["variant"]))
     seen = {K.digest(K.state_canon(root))}
     frontier = collections.deque([()])
     states = 1
